@@ -20,10 +20,21 @@ import (
 // mbits
 
 // BitsCase is one input of the mbits leg: the data bytes (hex) placed in a
-// backing array so that the address of the first byte is Off modulo 8.
+// backing array so that the address of the first byte is Off modulo Align
+// (a power of two <= 64; 0 means 8, the layout of the older replay files).
 type BitsCase struct {
-	Off int    `json:"off"`
-	Pat string `json:"pat"`
+	Off   int    `json:"off"`
+	Pat   string `json:"pat"`
+	Align int    `json:"align,omitempty"`
+}
+
+// modOf normalises an Align field.
+func modOf(align int) int {
+	switch align {
+	case 16, 32, 64:
+		return align
+	}
+	return 8
 }
 
 const guardLen = 8 // guard bytes on each side of the slice (plus up to 7 of alignment padding)
@@ -49,21 +60,32 @@ func trailingNaive(b []byte) int {
 type bitsBuf struct {
 	back, want []byte
 	start, n   int
+	mod        int // address modulus of the placement (0 means 8)
+}
+
+// guards returns the modulus and the number of guard bytes on each side.
+func (bb *bitsBuf) guards() (mod, g int) {
+	mod = modOf(bb.mod)
+	if mod > 8 {
+		return mod, 64 + guardLen // block-wise code may stray by a whole block
+	}
+	return mod, guardLen
 }
 
 // place lays data out in the backing array, every other byte set to guard,
-// and returns the sub-slice holding data whose address is off modulo 8.  The
+// and returns the sub-slice holding data whose address is off modulo bb.mod.  The
 // slice keeps the capacity up to the end of the backing array, so a stray
 // write lands in a guard byte instead of faulting.
 func (bb *bitsBuf) place(data []byte, off int, guard byte) []byte {
-	total := guardLen + 8 + len(data) + guardLen
+	mod, g := bb.guards()
+	total := g + mod + len(data) + g
 	if cap(bb.back) < total {
 		bb.back = make([]byte, total+64)
 		bb.want = make([]byte, total+64)
 	}
 	bb.back, bb.want = bb.back[:total], bb.want[:total]
-	base := int(uintptr(unsafe.Pointer(&bb.back[0])) & 7) // only to choose the alignment
-	bb.start, bb.n = guardLen+((off-base)%8+8)%8, len(data)
+	base := int(uintptr(unsafe.Pointer(&bb.back[0])) & uintptr(mod-1)) // only to choose the alignment
+	bb.start, bb.n = g+((off-base)%mod+mod)%mod, len(data)
 	for i := range bb.back {
 		bb.back[i] = guard
 	}
@@ -91,7 +113,7 @@ func checkBits(bb *bitsBuf, data []byte, off int) string {
 	wantL, wantT := leadingNaive(data), trailingNaive(data)
 	for _, guard := range []byte{0x00, 0xFF} {
 		sl := bb.place(data, off, guard)
-		where := fmt.Sprintf("%d bytes at address %d mod 8, surrounding bytes %#02x", len(data), off, guard)
+		where := fmt.Sprintf("%d bytes at address %d mod %d, surrounding bytes %#02x", len(data), off, modOf(bb.mod), guard)
 		var got int
 		if pv := vk.PanicValue(func() { got = mbits.LeadingZeroes(sl) }); pv != nil {
 			return fmt.Sprintf("LeadingZeroes(%s) panicked: %v", where, pv)
@@ -130,6 +152,137 @@ func checkBits(bb *bitsBuf, data []byte, off int) string {
 	return ""
 }
 
+// Position sweep over large buffers.  A sweep input is described by (length,
+// shape, p, v): one designated byte v != 0 at index p and
+//
+//	sweepZero    zeros everywhere else
+//	sweepBefore  the bytes before p taken from rnd, zeros after p
+//	sweepAfter   zeros before p, the bytes after p taken from rnd
+//	sweepNone    all zero (p, v unused)
+//	sweepAll     all bytes taken from rnd (p, v unused)
+const (
+	sweepZero = iota
+	sweepBefore
+	sweepAfter
+	sweepNone
+	sweepAll
+)
+
+var sweepClass = [...]string{"sweep_one_nonzero_byte", "sweep_random_bytes_then_nonzero_byte_then_zeros",
+	"sweep_zeros_then_nonzero_byte_then_random_bytes", "sweep_all_zero", "sweep_random_bytes"}
+
+// sweepData materialises one sweep input (for replay files and messages).
+func sweepData(n, shape, p int, v byte, rnd []byte) []byte {
+	data := make([]byte, n)
+	switch shape {
+	case sweepZero:
+		data[p] = v
+	case sweepBefore:
+		copy(data[:p], rnd)
+		data[p] = v
+	case sweepAfter:
+		data[p] = v
+		copy(data[p+1:], rnd[p+1:])
+	case sweepAll:
+		copy(data, rnd)
+	}
+	return data
+}
+
+// sweeper runs sweep inputs of one (length, alignment, guard value) in place:
+// the backing array is laid out once and only the bytes that differ from the
+// previous input are rewritten, so that an input costs little more than the
+// three library calls.  It checks a subset of what checkBits checks on the
+// materialised input, which is how a failure is reported and replayed.
+type sweeper struct {
+	bb         *bitsBuf
+	sl         []byte // the slice handed to the library
+	rnd        []byte
+	lzR, tzR   int // leading / trailing zero counts of rnd
+	n, off     int
+	guardValue byte
+}
+
+func newSweeper(bb *bitsBuf, n, off int, guard byte, rnd []byte) *sweeper {
+	s := &sweeper{bb: bb, rnd: rnd, n: n, off: off, guardValue: guard, lzR: leadingNaive(rnd), tzR: trailingNaive(rnd)}
+	s.sl = bb.place(make([]byte, n), off, guard)
+	return s
+}
+
+// step runs one input; "" means it passed.
+func (s *sweeper) step(shape, p int, v byte) (msg string) {
+	defer func() {
+		if r := recover(); r != nil {
+			msg = fmt.Sprintf("panic: %v", r)
+		}
+	}()
+	bb, n := s.bb, s.n
+	back, want := bb.back[bb.start:bb.start+n], bb.want[bb.start:bb.start+n]
+	// The previous step ended with the slice all zero in both arrays.
+	wantL, wantT := n, n
+	switch shape {
+	case sweepZero:
+		back[p], want[p] = v, v
+		wantL, wantT = p, n-1-p
+	case sweepBefore:
+		copy(back[:p], s.rnd)
+		copy(want[:p], s.rnd)
+		back[p], want[p] = v, v
+		wantL, wantT = min(s.lzR, p), n-1-p
+	case sweepAfter:
+		copy(back[p+1:], s.rnd[p+1:])
+		copy(want[p+1:], s.rnd[p+1:])
+		back[p], want[p] = v, v
+		wantL, wantT = p, min(s.tzR, n-1-p)
+	case sweepAll:
+		copy(back, s.rnd)
+		copy(want, s.rnd)
+		wantL, wantT = min(s.lzR, n), min(s.tzR, n)
+	}
+	if got := mbits.LeadingZeroes(s.sl); got != wantL {
+		return fmt.Sprintf("LeadingZeroes = %d, byte-by-byte count is %d", got, wantL)
+	}
+	if got := mbits.TrailingZeroes(s.sl); got != wantT {
+		return fmt.Sprintf("TrailingZeroes = %d, byte-by-byte count is %d", got, wantT)
+	}
+	if !bytes.Equal(bb.back, bb.want) {
+		return "LeadingZeroes or TrailingZeroes modified memory"
+	}
+	got := mbits.Zero(s.sl)
+	switch shape { // back to all zero
+	case sweepZero:
+		want[p] = 0
+	case sweepBefore:
+		clear(want[:p+1])
+	case sweepAfter:
+		clear(want[p:])
+	case sweepAll:
+		clear(want)
+	}
+	if at, bad := bb.diff(); bad {
+		return fmt.Sprintf("Zero: the byte at offset %d relative to the slice is wrong", at)
+	}
+	if got != n {
+		return fmt.Sprintf("Zero returned %d, want %d", got, n)
+	}
+	return ""
+}
+
+// explain turns a failed step into the replay case and the message of the
+// full oracle on the materialised input.
+func (s *sweeper) explain(shape, p int, v byte, fast string) (BitsCase, string) {
+	data := sweepData(s.n, shape, p, v, s.rnd)
+	mod := modOf(s.bb.mod)
+	c := BitsCase{Off: s.off, Align: mod, Pat: hex.EncodeToString(data)}
+	msg := vk.Guard(func() string { return checkBits(&bitsBuf{mod: mod}, data, s.off) })
+	if msg == "" {
+		// only the in-place run saw it (it depends on what the previous inputs left behind)
+		msg = fmt.Sprintf("%s (%d bytes at address %d mod %d, surrounding bytes %#02x, %s with p=%d v=%#02x, run in place after the preceding sweep inputs)",
+			fast, s.n, s.off, mod, s.guardValue, sweepClass[shape], p, v)
+	}
+	return c, msg
+}
+
 // bitsNT is the non-triviality rule: length >= 8 and a non-zero byte that is
 // neither in the first nor in the last 8-byte word.
 func bitsNT(data []byte) bool {
@@ -146,8 +299,9 @@ func runBits(c BitsCase, o *vk.Obs) string {
 	if err != nil {
 		return "VK-INFRA bad hex in case: " + err.Error()
 	}
-	off := ((c.Off % 8) + 8) % 8
-	if msg := checkBits(&bitsBuf{}, data, off); msg != "" {
+	mod := modOf(c.Align)
+	off := ((c.Off % mod) + mod) % mod
+	if msg := checkBits(&bitsBuf{mod: mod}, data, off); msg != "" {
 		return msg
 	}
 	if bitsNT(data) {
